@@ -2770,41 +2770,88 @@ Proof.
       * apply dict_agree; intros x G; apply Hs2; exact G.
 Qed.
 
-(* a rejected set_member / __setitem__ leaves the skeleton alone -- when the aliases are re-targeted BEFORE the member is
-   stored.  In the other order an exception raised by the re-targeting loop comes after the member was stored. *)
-Lemma set_value_err_skel : forall s a r p v s' e, ab = false -> set_value s a r p v = (s', Some e) -> skel_eq s s'.
+(* ---- a rejected insertion leaves the skeleton alone.  In the order "store, then re-target" an exception from the
+   re-targeting loop would come after the member was stored: the caller shows that the loop raises nothing *)
+Lemma set_at_err_skel : forall s a c k ms v s' e, set_at s a c k ms v = (s', Some e) ->
+  (ab = true -> forall m s2, a = Producer -> mlookup k ms = Some m ->
+     (kind_of s v = Some KAli -> repl_aliases s m = []) -> write_member s c k v = Ok s2 ->
+     snd (retarget_all s2 (repl_aliases s2 m) v) = None) ->
+  skel_eq s s'.
 Proof.
-  intros s a r p v s' e Hab H. unfold C16_tree.set_value in H.
-  destruct (getn s v); [|inversion H; apply skel_eq_refl].
-  destruct (locate s r p) as [[c k]|e0]; [|inversion H; apply skel_eq_refl].
-  destruct (members_r s c) as [ms|e0]; [|inversion H; apply skel_eq_refl].
-  apply set_at_shape in H. destruct H as [[H1 _]|[s1 [s2 [H1 [W [H2 He]]]]]]; [exact H1|].
-  destruct He; congruence.
+  intros s a c k ms v s' e H Hloop. unfold C16_tree.set_at in H.
+  assert (Hw : match write_member s c k v with Ok s2 => (s2, @None err) | Err e0 => (s, Some e0) end = (s', Some e) -> skel_eq s s').
+  { intro Q. destruct (write_member s c k v); inversion Q. apply skel_eq_refl. }
+  destruct a; [|destruct (mlookup k ms); exact (Hw H)].
+  destruct (mlookup k ms) as [m|] eqn:L; [|exact (Hw H)].
+  destruct (replace_probe s m v); [inversion H; apply skel_eq_refl|].
+  destruct ab.
+  - assert (Hgo : (kind_of s v = Some KAli -> repl_aliases s m = []) ->
+                  match write_member s c k v with
+                  | Err e0 => (s, Some e0)
+                  | Ok s1 => retarget_all s1 (repl_aliases s1 m) v end = (s', Some e) -> skel_eq s s').
+    { intros Hpre Q. destruct (write_member s c k v) as [s2|e0] eqn:W; [|inversion Q; apply skel_eq_refl].
+      exfalso. pose proof (Hloop eq_refl m s2 eq_refl eq_refl Hpre eq_refl) as N. rewrite Q in N. discriminate. }
+    destruct (kind_of s v) as [[| | | |]|]; try (apply Hgo; [discriminate|exact H]).
+    destruct (repl_aliases s m); [apply Hgo; [reflexivity|exact H]|]. inversion H. apply skel_eq_refl.
+  - pose proof (skel_eq_retarget_all (repl_aliases s m) s v) as HS.
+    destruct (retarget_all s (repl_aliases s m) v) as [s1 [e1|]]; simpl in HS.
+    + inversion H; subst. exact HS.
+    + destruct (write_member s1 c k v); inversion H; subst. exact HS.
 Qed.
 
-(* a rejected insertion leaves the dictionary as it was (stated for the order "re-target, then store": see above) *)
-Theorem refines_dict_new_rejected : forall s a r P k t s' e, ab = false -> Inv s -> step s (ONew a r P k t) = (s', Some e) ->
-  forall q, dict_of s' q = dict_of s q.
+Lemma retarget_all_ok : forall v als s kv,
+  kind_of s v = Some kv -> (exists vp, path_of s v = POk vp) ->
+  (forall a, In a als -> kind_of s a = Some KAli /\ exists p, path_of s a = POk p) ->
+  (is_ali kv = false \/ forall a, In a als -> a = v) ->
+  snd (retarget_all s als v) = None.
 Proof.
-  intros s a r P k t s' e Hab [HI _] H q. simpl in H.
-  destruct (recv_exists s r); simpl in H; [|inversion H; reflexivity].
-  destruct (alloc s k (last P "") t) as [s1 e1] eqn:Al.
-  apply alloc_cases in Al. destruct Al as [[E1 E2]|[E1 [nd [E2 [Pn [M _]]]]]].
-  - subst s1. destruct e1; [inversion H; reflexivity|congruence].
-  - subst e1. apply (set_value_err_skel _ _ _ _ _ _ _ Hab) in H.
-    apply dict_agree.
-    + intros x G. rewrite <- (skel_eq_get s1 s' H). subst s1. apply get_forward_app. exact G.
-    + intros x G. rewrite <- (skel_eq_get s1 s' H) in G. subst s1. eapply get_backward_app; eauto.
+  intros v als. induction als as [|a0 r IH]; intros s kv Kv [vp Pv] Hal Hv; [reflexivity|].
+  simpl. destruct (Hal a0 (or_introl eq_refl)) as [Ka [ap Pa]].
+  assert (Hrest : forall s0, skel_eq s s0 -> snd (retarget_all s0 r v) = None).
+  { intros s0 HS. apply (IH s0 kv).
+    - rewrite <- (skel_eq_kind s s0 HS). exact Kv.
+    - exists vp. rewrite <- (skel_eq_path s s0 HS). exact Pv.
+    - intros a Hin. destruct (Hal a (or_intror Hin)) as [K [p P]]. split.
+      + rewrite <- (skel_eq_kind s s0 HS). exact K.
+      + exists p. rewrite <- (skel_eq_path s s0 HS). exact P.
+    - destruct Hv as [Hv|Hv]; [left; exact Hv|right; intros a Hin; apply Hv; right; exact Hin]. }
+  destruct (set_target s a0 v) as [s'|e] eqn:E.
+  - apply Hrest. eapply skel_eq_set_target; eauto.
+  - unfold set_target in E. rewrite Ka, Kv, Pv, Pa in E.
+    destruct (Nat.eqb v a0) eqn:Eva; [inversion E; subst e; apply Hrest; apply skel_eq_refl|].
+    destruct (path_eqb vp ap); [inversion E; subst e; apply Hrest; apply skel_eq_refl|].
+    destruct Hv as [Hv|Hv].
+    + rewrite Hv in E. discriminate.
+    + exfalso. apply Nat.eqb_neq in Eva. apply Eva. symmetry. apply Hv. left. reflexivity.
 Qed.
 
-(* ================================================================ K. aliases follow a set_member replacement (both orders) *)
-
-Lemma In_aput_other : forall k v k' v' l, k' <> k -> In (k', v') l -> In (k', v') (aput k v l).
+(* the entries of the aliases dictionaries after storing v: what they were, or an entry for v itself *)
+Lemma write_member_aliases_sub : forall s c k v s', write_member s c k v = Ok s' ->
+  (forall i, c = RObj i -> i <> v) ->
+  forall t tn' q a, getn s' t = Some tn' -> In (q, a) (naliases tn') ->
+  a = v \/ exists tn, getn s t = Some tn /\ nkind tn = nkind tn' /\ In (q, a) (naliases tn).
 Proof.
-  intros k v k' v' l Hne. induction l as [|[k2 v2] r IH]; intro H; [contradiction|].
-  unfold aput. simpl. destruct (path_eqb k k2) eqn:E.
-  - apply path_eqb_eq in E. subst k2. destruct H as [H|H]; [inversion H; congruence|right; exact H].
-  - destruct H as [H|H]; [left; exact H|right; apply IH; exact H].
+  intros s c k v s' W Hobj t tn' q a G Hin. unfold write_member in W. destruct c as [|i].
+  - inversion W; subst s'. fold (link_root s k v) in G. rewrite getn_link_root in G. right. destruct (Nat.eqb v t).
+    + destruct (getn s t) as [tn|]; simpl in G; [|discriminate]. inversion G; subst tn'. exists tn. auto.
+    + exists tn'. auto.
+  - pose proof (Hobj i eq_refl) as Hne. fold (link_obj s i k v) in W. set (sl := link_obj s i k v) in *.
+    assert (Hsl : forall tnl, getn sl t = Some tnl -> exists tn, getn s t = Some tn /\ nkind tn = nkind tnl /\ naliases tn = naliases tnl).
+    { intros tnl Gl. destruct (link_obj_node s i k v t Hne) as [f [E F]]. fold sl in E. rewrite E in Gl.
+      destruct (getn s t) as [tn|]; simpl in Gl; [|discriminate]. inversion Gl; subst tnl. exists tn. split; auto.
+      destruct (F tn) as [F1 [_ [F3 _]]]. split; symmetry; assumption. }
+    assert (Hsame : s' = sl -> a = v \/ exists tn, getn s t = Some tn /\ nkind tn = nkind tn' /\ In (q, a) (naliases tn)).
+    { intro E. subst s'. right. destruct (Hsl tn' G) as [tn [Gt [Kt Et]]]. exists tn. rewrite Et. auto. }
+    destruct (kind_of s v) as [[| | | |]|]; try (apply Hsame; inversion W; reflexivity).
+    unfold update_target_aliases in W.
+    destruct (getn sl v) as [vl|]; [|apply Hsame; inversion W; reflexivity].
+    destruct (ntarget vl) as [t0|]; [|apply Hsame; inversion W; reflexivity].
+    destruct (path_of sl v) as [pv| |] eqn:Pv; try (apply Hsame; inversion W; reflexivity).
+    inversion W; subst s'. unfold add_backref in G. rewrite getn_upd in G. destruct (Nat.eqb t0 t).
+    + destruct (getn sl t) as [tnl|] eqn:Gl; simpl in G; [|discriminate]. inversion G; subst tn'. simpl in Hin.
+      apply In_aput in Hin. destruct Hin as [[_ E2]|Hin]; [left; exact E2|].
+      right. destruct (Hsl tnl eq_refl) as [tn [Gt [Kt Et]]]. exists tn. rewrite Et. auto.
+    + right. destruct (Hsl tn' G) as [tn [Gt [Kt Et]]]. exists tn. rewrite Et. auto.
 Qed.
 
 Lemma locate_app : forall s p pj r0 j, get s r0 pj = Ok j -> p <> [] -> locate s r0 (pj ++ p) = locate s (RObj j) p.
@@ -2817,6 +2864,151 @@ Proof.
   - inversion G; subst x. simpl. destruct p as [|kp p']; [congruence|]. rewrite L. reflexivity.
   - change ((k1 :: rest') ++ p) with (k1 :: (rest' ++ p)). cbv iota. rewrite L.
     change (k1 :: rest' ++ p) with ((k1 :: rest') ++ p). apply IH; auto.
+Qed.
+
+(* storing a loose object through the discipline keeps both invariants (the store is all that __setitem__ does) *)
+Lemma Inv_write_fresh : forall s r p c k ms v vn s2, SInv s -> AInv s -> Detached s v -> NoVal s v ->
+  (forall x n, getn s x = Some n -> ntarget n <> Some v) ->
+  getn s v = Some vn -> r <> RObj v -> nname vn = last p "" ->
+  (forall t, ntarget vn = Some t -> nkind vn = KAli) ->
+  (r = RRoot -> (exists k, p = [k]) -> is_ali (nkind vn) = false /\ nparent vn = None) ->
+  (r = RRoot \/ exists j, r = RObj j /\ Live s j) ->
+  locate s r p = Ok (c, k) -> members_r s c = Ok ms -> write_member s c k v = Ok s2 -> SInv s2 /\ AInv s2.
+Proof.
+  intros s r p c k ms v vn s2 HI HA D NV NT Gv Hr Nv Hali Av Lr Lc M W.
+  pose proof (SInv_set_value_fresh s Consumer r p v vn HI D Gv Hr Nv Av) as A.
+  pose proof (AInv_set_value_fresh s Consumer r p v vn HI HA D NV NT Gv Hr Nv Hali Av Lr) as B.
+  unfold C16_tree.set_value in A, B. rewrite Gv, Lc, M in A, B. unfold C16_tree.set_at in A, B.
+  rewrite W in A, B. simpl in A, B. split; assumption.
+Qed.
+
+(* ... and after it the re-targeting loop of set_member raises nothing *)
+Lemma loop_ok_fresh : forall s r p c k ms m v vn s2, SInv s -> AInv s -> Detached s v -> NoVal s v ->
+  (forall x n, getn s x = Some n -> ntarget n <> Some v) ->
+  getn s v = Some vn -> r <> RObj v -> nname vn = last p "" ->
+  (forall t, ntarget vn = Some t -> nkind vn = KAli) ->
+  (r = RRoot -> (exists k, p = [k]) -> is_ali (nkind vn) = false /\ nparent vn = None) ->
+  (r = RRoot \/ exists j, r = RObj j /\ Live s j) ->
+  locate s r p = Ok (c, k) -> members_r s c = Ok ms ->
+  (kind_of s v = Some KAli -> repl_aliases s m = []) ->
+  write_member s c k v = Ok s2 -> snd (retarget_all s2 (repl_aliases s2 m) v) = None.
+Proof.
+  intros s r p c k ms m v vn s2 HI HA D NV NT Gv Hr Nv Hali Av Lr Lc M Hpre W.
+  destruct (Inv_write_fresh s r p c k ms v vn s2 HI HA D NV NT Gv Hr Nv Hali Av Lr Lc M W) as [HI2 HA2].
+  destruct (write_member_target s c k v s2 W v vn Gv) as [vn2 [Gv2 _]].
+  assert (Hobj : forall i, c = RObj i -> i <> v).
+  { intros i Ec. subst c. exact (locate_not_detached s v D p r i k Hr Lc). }
+  (* the absolute path of the entry: v is in the tree afterwards, so it has a path *)
+  assert (Habs : exists Pabs, locate s RRoot Pabs = Ok (c, k)).
+  { destruct Lr as [Er|[j [Er [pj Gj]]]]; subst r.
+    - exists p. exact Lc.
+    - assert (Hp : p <> []) by (intro; subst p; simpl in Lc; discriminate).
+      exists (pj ++ p). rewrite (locate_app s p pj RRoot j Gj Hp). exact Lc. }
+  destruct Habs as [Pabs LcA].
+  destruct (link_facts s Pabs c k v vn s2 HI D Gv LcA W) as [s3 [HS3 [_ [_ [GP _]]]]].
+  rewrite (skel_eq_get s3 s2 HS3) in GP. pose proof (retrievable s2 HI2 Pabs v GP) as Pv2.
+  unfold repl_aliases. destruct (getn s2 m) as [mn2|] eqn:Gm2; [|reflexivity].
+  destruct (is_ali (nkind mn2)) eqn:Am2; [reflexivity|].
+  apply (retarget_all_ok v (map snd (naliases mn2)) s2 (nkind vn2)).
+  - unfold kind_of. rewrite Gv2. reflexivity.
+  - exists Pabs. exact Pv2.
+  - intros a Hin. apply in_map_iff in Hin. destruct Hin as [[q a'] [E Hin]]. simpl in E. subst a'.
+    destruct (a_key s2 HA2 m mn2 q a Gm2 Hin) as [Pa Ka]. split; [exact Ka|]. exists q. exact Pa.
+  - destruct (is_ali (nkind vn2)) eqn:Av2; [right|left; reflexivity].
+    intros a Hin. apply in_map_iff in Hin. destruct Hin as [[q a'] [E Hin]]. simpl in E. subst a'.
+    destruct (write_member_aliases_sub s c k v s2 W Hobj m mn2 q a Gm2 Hin) as [E|[mn [Gm [Km Hin0]]]]; [exact E|].
+    exfalso.
+    assert (Kv : kind_of s v = Some KAli).
+    { destruct (write_member_target_back s c k v s2 W v vn2 Gv2) as [vn0 [Gv0 _]].
+      assert (nkind vn = nkind vn2).
+      { pose proof W as W1. apply write_member_shape in W1. destruct c as [|i].
+        - subst s2. rewrite getn_link_root, Nat.eqb_refl, Gv in Gv2. simpl in Gv2. inversion Gv2. reflexivity.
+        - pose proof (skel_eq_kind _ _ W1 v) as Kk. unfold kind_of in Kk. rewrite Gv2 in Kk.
+          rewrite getn_link_obj in Kk by (apply Hobj; reflexivity). rewrite Nat.eqb_refl, Gv in Kk. simpl in Kk. inversion Kk. reflexivity. }
+      unfold kind_of. rewrite Gv. simpl. rewrite H. destruct (nkind vn2); try discriminate. reflexivity. }
+    specialize (Hpre Kv). unfold repl_aliases in Hpre. rewrite Gm in Hpre. rewrite Km, Am2 in Hpre.
+    assert (Q : In a (map snd (naliases mn))) by (apply in_map_iff; exists (q, a); auto). rewrite Hpre in Q. contradiction.
+Qed.
+
+Lemma set_value_err_skel : forall s a r p v s' e, set_value s a r p v = (s', Some e) ->
+  (ab = true -> exists vn, SInv s /\ AInv s /\ Detached s v /\ NoVal s v /\
+     (forall x n, getn s x = Some n -> ntarget n <> Some v) /\
+     getn s v = Some vn /\ r <> RObj v /\ nname vn = last p "" /\
+     (forall t, ntarget vn = Some t -> nkind vn = KAli) /\
+     (r = RRoot -> (exists k, p = [k]) -> is_ali (nkind vn) = false /\ nparent vn = None) /\
+     (r = RRoot \/ exists j, r = RObj j /\ Live s j)) ->
+  skel_eq s s'.
+Proof.
+  intros s a r p v s' e H Hab. unfold C16_tree.set_value in H.
+  destruct (getn s v) eqn:Gv0; [|inversion H; apply skel_eq_refl].
+  destruct (locate s r p) as [[c k]|e0] eqn:Lc; [|inversion H; apply skel_eq_refl].
+  destruct (members_r s c) as [ms|e0] eqn:M; [|inversion H; apply skel_eq_refl].
+  apply (set_at_err_skel s a c k ms v s' e H).
+  intros Et m s2 _ _ Hpre W.
+  destruct (Hab Et) as [vn [HI [HA [D [NV [NT [Gv [Hr [Nv [Hali [Av Lr]]]]]]]]]]].
+  assert (Gv' : getn s v = Some vn) by (rewrite Gv0; exact Gv).
+  exact (loop_ok_fresh s r p c k ms m v vn s2 HI HA D NV NT Gv' Hr Nv Hali Av Lr Lc M Hpre W).
+Qed.
+
+(* a rejected insertion (any receiver) leaves the dictionary as it was.  In the order "store, then re-target" the operation
+   has to be inside the discipline: then the loop that runs after the store raises nothing *)
+Theorem refines_dict_new_rejected : forall s a r P k t s' e, Inv s ->
+  (ab = true -> top_down s (ONew a r P k t) = true) ->
+  step s (ONew a r P k t) = (s', Some e) ->
+  forall q, dict_of s' q = dict_of s q.
+Proof.
+  intros s a r P k t s' e [HI HA] Htd H q. simpl in H.
+  destruct (recv_exists s r) eqn:Re; simpl in H; [|inversion H; reflexivity].
+  destruct (alloc s k (last P "") t) as [s1 e1] eqn:Al.
+  apply alloc_cases in Al. destruct Al as [[E1 E2]|[E1 [nd [E2 [Pn [M [N [K [AL T]]]]]]]]].
+  - subst s1. destruct e1; [inversion H; reflexivity|congruence].
+  - subst e1.
+    assert (HS : skel_eq s1 s').
+    { apply (set_value_err_skel s1 a r P (List.length (heap s)) s' e H). intro Et. specialize (Htd Et).
+      destruct (SInv_app s nd HI Pn M) as [HI1 D1]. rewrite <- E2 in HI1, D1.
+      assert (HA1 : AInv s1).
+      { subst s1. apply AInv_app; auto. intros x Hx. exact (proj1 (proj2 (T x Hx))). }
+      assert (Gv : getn s1 (List.length (heap s)) = Some nd) by (subst s1; apply getn_app_last).
+      assert (Hold : forall i n0, getn s1 i = Some n0 -> i <> List.length (heap s) -> getn s i = Some n0).
+      { intros i n0 G Hi. subst s1. apply getn_app_old in G. destruct G as [[_ G]|[E _]]; [exact G|contradiction]. }
+      exists nd. split; [exact HI1|]. split; [exact HA1|]. split; [exact D1|].
+      split.
+      { intros t0 tn p0 G Hin. destruct (a_key s1 HA1 t0 tn p0 _ G Hin) as [_ Kk].
+        destruct (Nat.eq_dec t0 (List.length (heap s))) as [Et0|Et0].
+        - subst t0. rewrite Gv in G. inversion G; subst tn. rewrite AL in Hin. contradiction.
+        - pose proof (Hold t0 tn G Et0) as G0. destruct (a_key s HA t0 tn p0 _ G0 Hin) as [_ K0].
+          unfold kind_of in K0. destruct (getn s (List.length (heap s))) eqn:Gx; [|discriminate].
+          apply getn_lt in Gx. lia. }
+      split.
+      { intros x n0 G Tx. destruct (Nat.eq_dec x (List.length (heap s))) as [Ex|Ex].
+        - subst x. rewrite Gv in G. inversion G; subst n0. destruct (T _ Tx) as [_ [K1 _]].
+          unfold kind_of in K1. destruct (getn s (List.length (heap s))) eqn:Gx; [|simpl in K1; congruence].
+          apply getn_lt in Gx. lia.
+        - pose proof (Hold x n0 G Ex) as G0. pose proof (a_tgt s HA x n0 _ G0 Tx) as K1.
+          unfold kind_of in K1. destruct (getn s (List.length (heap s))) eqn:Gx; [|simpl in K1; congruence].
+          apply getn_lt in Gx. lia. }
+      split; [exact Gv|]. split.
+      { destruct r as [|i]; [discriminate|]. simpl in Re. apply Nat.ltb_lt in Re. intro E. inversion E. lia. }
+      split; [exact N|]. split.
+      { intros t0 Ht. rewrite K. exact (proj1 (T t0 Ht)). }
+      split.
+      { intros Hr Hp. rewrite K. split; [exact (top_down_new_root_kind s a r P k t Htd Hr Hp) | exact Pn]. }
+      pose proof (top_down_new_recv s a r P k t Htd) as Lr. apply recv_live_spec in Lr.
+      destruct Lr as [Lr|[j [Lr [pj Gj]]]]; [left; exact Lr|]. right. exists j. split; auto.
+      exists pj. subst s1. apply get_forward_app. exact Gj. }
+    apply dict_agree.
+    + intros x G. rewrite <- (skel_eq_get s1 s' HS). subst s1. apply get_forward_app. exact G.
+    + intros x G. rewrite <- (skel_eq_get s1 s' HS) in G. subst s1. eapply get_backward_app; eauto.
+Qed.
+
+(* ================================================================ K. aliases follow a set_member replacement (both orders) *)
+
+Lemma In_aput_other : forall k v k' v' l, k' <> k -> In (k', v') l -> In (k', v') (aput k v l).
+Proof.
+  intros k v k' v' l Hne. induction l as [|[k2 v2] r IH]; intro H; [contradiction|].
+  unfold aput. simpl. destruct (path_eqb k k2) eqn:E.
+  - apply path_eqb_eq in E. subst k2. destruct H as [H|H]; [inversion H; congruence|right; exact H].
+  - destruct H as [H|H]; [left; exact H|right; apply IH; exact H].
 Qed.
 
 Lemma set_target_not_cyclic_paths : forall s a v vp ap, a <> v ->
